@@ -21,9 +21,9 @@ type tlInfo struct {
 	TaskI    *types.Named
 	Fns      []*ssa.Function
 	Ctor     *ssa.Function // inlined view, like Queue, Worker, Push and Status (compare with sameFn)
-	Buffered *types.Var // []chan Task made with non-zero capacity
-	Blocking *types.Var // []chan Task made with capacity 0
-	Shared   *types.Var // chan Task
+	Buffered *types.Var    // []chan Task made with non-zero capacity
+	Blocking *types.Var    // []chan Task made with capacity 0
+	Shared   *types.Var    // chan Task
 	Ctx      *types.Var
 	WG       *types.Var
 	Queue    *ssa.Function // goroutine body that drains the buffered queue
